@@ -31,6 +31,8 @@ pub struct Field {
     pub rename: Option<String>,
     pub default: bool,
     pub skip_none: bool,
+    /// `#[serde(default = "fn")]`: (function name, body expression)
+    pub default_fn: Option<(String, String)>,
 }
 
 #[derive(Clone, Debug)]
@@ -122,6 +124,15 @@ fn ty(g: &mut G, n: usize, idx: usize, depth: usize) -> Ty {
     }
 }
 
+fn mentions_ref(t: &Ty) -> bool {
+    match t {
+        Ty::Ref(_) => true,
+        Ty::Opt(x) | Ty::Vec(x) | Ty::Set(x) | Ty::Boxed(x) | Ty::Array(x, _) | Ty::Map(x, _) => mentions_ref(x),
+        Ty::Tuple(ts) => ts.iter().any(mentions_ref),
+        _ => false,
+    }
+}
+
 fn has_default(t: &Ty) -> bool {
     matches!(t, Ty::Bool | Ty::Int(_) | Ty::F64 | Ty::F32 | Ty::Str | Ty::Opt(_) | Ty::Vec(_) | Ty::Map(..) | Ty::Set(_) | Ty::Unit)
 }
@@ -136,11 +147,22 @@ fn fields(g: &mut G, n: usize, idx: usize, max: usize) -> Vec<Field> {
         .map(|name| {
             let t = ty(g, n, idx, 0);
             let is_opt = matches!(t, Ty::Opt(_));
+            let default = has_default(&t) && g.chance(1, 4);
+            // a custom default function returning a (usually non-empty) value of the field's
+            // type; only for types without references (the value must be constructible here)
+            let container = matches!(t, Ty::Map(..) | Ty::Vec(_) | Ty::Set(_) | Ty::Str);
+            let default_fn = if !default && has_default(&t) && !mentions_ref(&t) && g.chance(if container { 2 } else { 1 }, 4) {
+                let empty = Universe { defs: vec![] };
+                Some((format!("dflt_{}_{}_{}", idx, name, g.below(100000)), expr(g, &empty, &t, 1)))
+            } else {
+                None
+            };
             Field {
                 name: name.to_string(),
                 rename: if g.chance(1, 6) { Some(format!("{}Renamed", name.replace('_', "-"))) } else { None },
-                default: has_default(&t) && g.chance(1, 4),
-                skip_none: is_opt && g.chance(1, 3),
+                default,
+                skip_none: is_opt && default_fn.is_none() && g.chance(1, 3),
+                default_fn,
                 ty: t,
             }
         })
@@ -247,6 +269,9 @@ fn field_src(f: &Field, public: bool) -> String {
     if f.default {
         attrs.push("default".into());
     }
+    if let Some((name, _)) = &f.default_fn {
+        attrs.push(format!("default = {:?}", name));
+    }
     if f.skip_none {
         attrs.push("skip_serializing_if = \"Option::is_none\"".into());
         if !f.default {
@@ -257,7 +282,27 @@ fn field_src(f: &Field, public: bool) -> String {
     format!("    {a}{}{}: {},\n", if public { "pub " } else { "" }, f.name, ty_src(&f.ty))
 }
 
+fn default_fns(fs: &[Field]) -> String {
+    fs.iter().filter_map(|f| f.default_fn.as_ref().map(|(n, e)| format!("pub fn {n}() -> {} {{ {e} }}\n", ty_src(&f.ty)))).collect()
+}
+
 pub fn def_src(i: usize, d: &Def) -> String {
+    let mut s = def_src_inner(i, d);
+    match d {
+        Def::Struct { fields, .. } => s.push_str(&default_fns(fields)),
+        Def::Enum { variants, .. } => {
+            for v in variants {
+                if let VKind::Struct(fs) = &v.kind {
+                    s.push_str(&default_fns(fs));
+                }
+            }
+        }
+        _ => {}
+    }
+    s
+}
+
+fn def_src_inner(i: usize, d: &Def) -> String {
     let name = type_name(i);
     let derive = "#[derive(serde::Serialize, serde::Deserialize, schemars::JsonSchema, PartialEq, Debug, Clone)]\n";
     let mut s = String::from(derive);
@@ -378,7 +423,25 @@ pub fn expr(g: &mut G, u: &Universe, t: &Ty, depth: usize) -> String {
 }
 
 fn fields_expr(g: &mut G, u: &Universe, fs: &[Field], depth: usize) -> String {
-    fs.iter().map(|f| format!("{}: {}", f.name, expr(g, u, &f.ty, depth))).collect::<Vec<_>>().join(", ")
+    fs.iter()
+        .map(|f| {
+            // next to a custom default: the empty value, half of the time
+            let e = if f.default_fn.is_some() && g.chance(1, 2) { empty_expr(&f.ty).unwrap_or_else(|| expr(g, u, &f.ty, depth)) } else { expr(g, u, &f.ty, depth) };
+            format!("{}: {}", f.name, e)
+        })
+        .collect::<Vec<_>>()
+        .join(", ")
+}
+
+fn empty_expr(t: &Ty) -> Option<String> {
+    Some(match t {
+        Ty::Map(..) | Ty::Vec(_) | Ty::Set(_) => "Default::default()".to_string(),
+        Ty::Str => "String::new()".to_string(),
+        Ty::Opt(_) => "None".to_string(),
+        Ty::Int(n) => format!("0 as {n}"),
+        Ty::Bool => "false".to_string(),
+        _ => return None,
+    })
 }
 
 pub fn def_expr(g: &mut G, u: &Universe, i: usize, depth: usize) -> String {
